@@ -58,15 +58,15 @@ Definition mk (n : nat) (p : list (src * bool)) (a : list ((src * ktab) * option
 
 (* the same with the pre-fix behaviour switched on (used by the check to show that the
    model of the unfixed code reproduces N2 / N5 on the Go side of a scratch tree) *)
-Fixpoint replay_var (n : nat) (T : tables) (f2 f5 : bool) (s : tstate) (k : Z) (h : list (cmd * obs)) : Z :=
+Fixpoint replay_var (n : nat) (T : tables) (f2 f5 f32 : bool) (s : tstate) (k : Z) (h : list (cmd * obs)) : Z :=
   match h with
   | [] => 0
   | (c, o) :: h' =>
-      let '(s', r) := t_step_var T f2 f5 s c in
-      if obs_ok n s' r o then replay_var n T f2 f5 s' (k + 1) h' else k
+      let '(s', r) := t_step_var T f2 f5 f32 s c in
+      if obs_ok n s' r o then replay_var n T f2 f5 f32 s' (k + 1) h' else k
   end.
 Definition judge_unfixed (c : history) : Z :=
-  let '(n, T, h) := c in replay_var n T false false init 1 h.
+  let '(n, T, h) := c in replay_var n T false false false init 1 h.
 
 (* model output for a replay file *)
 Fixpoint trace (T : tables) (s : tstate) (univ : list pred) (cs : list cmd) :=
